@@ -5,6 +5,13 @@ sys.path.insert(0, '/verif/lib')
 import props
 
 LEVEL = {
+ "C13": ("BerEngine.tla (PlusCal) models the collector, W free-running workers, the unbounded result channel with its set of live sender handles, the capacity-1 terminate channels, joins, the reporter and epochs, one label per blocking or "
+         "visible step. TLC explores every interleaving for W=2 (3 thorough), target 2, 1-2 epochs with three frame outcomes and checks StatsExact (counters = fold over consumed frames), StopExact, the outer-code rule, NoLeak, FinishedLast, "
+         "NoStuck, and Termination as a liveness property under weak fairness in every fault mode; the as-found design (collector keeps a sender; join().unwrap()) is rejected in two negative configurations. The real engine is bound by trace "
+         "validation of whole runs in child processes under a watchdog (worker counts via CPU affinity, scripted per-worker outcomes, randomised delays, Reporter interval 0, fault injection): TLC must explain the report stream by consuming "
+         "worker outcomes in per-worker order (inferring the unlogged arrival order by search), with exact counters, ratios, stopping frame, returned statistics, dropped decoders and Finished last; faults must end in an error, not a hang or panic.",
+         "TLC + Json/IOUtils; scripted decoder is the source of frame outcomes (bit errors = flips relies on C12); schedules of the real engine are perturbed, not enumerated; 20 s watchdog.",
+         "PlusCal/TLA+ model checking of all interleavings (safety + liveness) + trace validation of real multi-threaded runs with inference of unlogged choices", "5 C13"),
  "C12": ("Chain.tla composes puncture -> interleave -> (channel) -> deinterleave -> depuncture on tagged positions and states the sizes (n counted after puncturing, rate = k/n, sigma^2 = 1/(2 rate bps Eb/N0)); TLC checks on all "
          "small patterns/shapes that the composition delivers every kept tag to its own position and ZERO elsewhere (a wrong inverse order is a negative configuration). The real BER engine is bound by trace validation through a "
          "recording decoder injected via the public DecoderFactory: TLC checks every recorded frame (length, exact-zero positions = punctured positions, sign pattern completes to a codeword), the reported sizes for ~320 (pattern, size) "
